@@ -21,7 +21,10 @@ use std::sync::Arc;
 use std::{collections::HashMap, num::NonZeroUsize};
 
 use futures::StreamExt;
-use futures::{stream::select, Future};
+use futures::{
+    stream::{select_with_strategy, PollNext},
+    Future,
+};
 use parking_lot::RwLock;
 use swimos_api::agent::{Agent, LaneKind};
 use swimos_api::error::{IntrospectionStopped, LaneIntrospectionError, NodeIntrospectionError};
@@ -251,7 +254,10 @@ pub async fn introspection_task(
     let msg_stream = UnboundedReceiverStream::new(messages);
     let reg_stream = ReceiverStream::new(registrations).map(IntrospectionMessage::from);
 
-    let mut stream = select(msg_stream, reg_stream).take_until(stopping);
+    // The registration of an agent is always sent (on the message channel) before any of its lanes
+    // is registered (on the registration channel): taking messages first keeps that order.
+    let mut stream = select_with_strategy(msg_stream, reg_stream, |_: &mut ()| PollNext::Left)
+        .take_until(stopping);
     let mut agents = Agents::new(agents);
 
     while let Some(message) = stream.next().await {
